@@ -6,7 +6,7 @@
 set -u
 cd "$(dirname "$(readlink -f "$0")")/.." || exit 2
 GLOB="${1:-*}"
-OUT="$(mktemp -d /dev/shm/regress.XXXXXX)"
+OUT="${REGRESS_OUT:-$(mktemp -d /dev/shm/regress.XXXXXX)}"; mkdir -p "$OUT"
 one() {
 	ID="$1"; OUT="$2"
 	PROP=$(jq -r '.breaks_property' "seeded/$ID/meta.json")
@@ -18,7 +18,10 @@ one() {
 	echo "$ID $PROP exit=${RC:-2}"
 }
 export -f one
-ls -d seeded/$GLOB/ | xargs -n1 basename | xargs -P 3 -I{} bash -c 'one {} '"$OUT"
+# (ids already present in $OUT are skipped, so that an interrupted run can be continued; REGRESS_ASSEMBLE_ONLY=1 only writes the table)
+if [ -z "${REGRESS_ASSEMBLE_ONLY:-}" ]; then
+	ls -d seeded/$GLOB/ | xargs -n1 basename | while read -r id; do [ -f "$OUT/$id.json" ] || echo "$id"; done | xargs -P "${REGRESS_LANES:-3}" -I{} bash -c 'one {} '"$OUT"
+fi
 jq -s '{tool:"regress-seeded", rows: (. | sort_by(.id)), total: length, reported: ([.[]|select(.exit==1)]|length), not_reported: [.[]|select(.exit!=1)|.id]}' "$OUT"/*.json > evidence/seeded-regression.json
-rm -rf "$OUT"
+[ -n "${REGRESS_OUT:-}" ] || rm -rf "$OUT"
 jq -r '"total=\(.total) reported=\(.reported) not_reported=\(.not_reported|join(","))"' evidence/seeded-regression.json
